@@ -37,6 +37,121 @@ Proof.
   apply IH; [apply reachable_apply_op; exact R|apply apply_op_quiescent|apply apply_op_pending; exact P].
 Qed.
 
+(* ---- wire steps: op 15, a non-limited connection arrives while a new call runs ------------- *)
+Lemma race_conns : forall s d a f n proxy, pending s = [] ->
+  conns (apply_op (apply_op s (OStart d a f n)) (OAdd false proxy)) = conns s ++ [new_conn false proxy].
+Proof.
+  intros s d a f n proxy P.
+  assert (Cm : conns (apply_op s (OStart d a f n)) = conns s).
+  { unfold apply_op. rewrite settle_conns. cbn [stimulate].
+    destruct (do_step_start s d a f n) as [_ [C _]]. exact C. }
+  pose proof (apply_op_pending s (OStart d a f n) P) as Pm.
+  set (mid := apply_op s (OStart d a f n)) in *.
+  unfold apply_op at 1. rewrite settle_conns. cbn [stimulate].
+  destruct (do_step_append mid false proxy) as [Hc [_ [_ [_ Hp]]]]. rewrite Pm in Hp. cbn [app] in Hp.
+  set (s1 := do_step mid (AAppend false proxy)) in *.
+  assert (M : mem (length (conns mid)) (pending s1) = true) by (rewrite Hp; cbn; rewrite Nat.eqb_refl; reflexivity).
+  destruct (do_step_notify_on s1 _ M) as [Hc2 _]. rewrite Hc2, Hc, Cm. reflexivity.
+Qed.
+
+Lemma direct_added_race : forall s d a f n proxy, pending s = [] ->
+  direct_added (obs_of s) (obs_of (apply_op (apply_op s (OStart d a f n)) (OAdd false proxy))) = true.
+Proof.
+  intros s d a f n proxy P. apply direct_added_iff. rewrite (race_conns s d a f n proxy P). apply da_conns_app.
+Qed.
+
+Lemma reachable_apply_wstep : forall da s w, reachable da s -> reachable da (apply_wstep s w).
+Proof. intros da s [o|d a f n p] R; cbn [apply_wstep]; repeat apply reachable_apply_op; exact R. Qed.
+
+Lemma apply_wstep_quiescent : forall s w, quiescent (apply_wstep s w).
+Proof. intros s [o|d a f n p]; cbn [apply_wstep]; apply apply_op_quiescent. Qed.
+
+Lemma apply_wstep_pending : forall s w, pending s = [] -> pending (apply_wstep s w) = [].
+Proof. intros s [o|d a f n p] P; cbn [apply_wstep]; repeat apply apply_op_pending; exact P. Qed.
+
+(* the step "a non-limited connection was added", judged against ANY earlier observation p:
+   stated for an abstract final state so that nothing is unfolded at Qed *)
+Lemma mon_check_added_abs : forall da p x proxy, reachable da x -> quiescent x -> pending x = [] ->
+  direct_added p (obs_of x) = true ->
+  mon_check p (OAdd false proxy) (obs_of x) = 0.
+Proof.
+  intros da p x proxy R' Q' P' DA.
+  unfold mon_check.
+  rewrite (clause1_holds _ (reachable_InvA _ _ R')). cbn [negb].
+  assert (C2 : Nat.eqb (o_nw (obs_of x)) (n_waiting (o_calls (obs_of x))) = true).
+  { apply Nat.eqb_eq. cbn [obs_of o_nw o_calls]. apply (clause2_at_quiescence da _ R' Q'). }
+  rewrite C2. cbn [negb].
+  assert (C3 : direct_added_usable p (obs_of x) && negb (Nat.eqb (n_waiting (o_calls (obs_of x))) 0) = false).
+  { destruct (direct_added_usable p (obs_of x)) eqn:D; [|reflexivity]. cbn [andb].
+    pose proof (clause11_holds da _ R' Q' P') as C11. unfold no_waiter_with_direct in C11.
+    unfold direct_added_usable in D. apply andb_true_iff in D. destruct D as [D1 D2].
+    unfold direct_added in D1. apply andb_true_iff in D1. destruct D1 as [_ D1].
+    destruct (nth_error (o_conns (obs_of x)) (length (o_conns p))) as [k|] eqn:E; [|discriminate].
+    assert (H : has_direct (o_conns (obs_of x)) = true).
+    { unfold has_direct. apply existsb_exists. exists k. split; [eapply nth_error_In; exact E|].
+      rewrite D1, D2. reflexivity. }
+    rewrite H in C11. cbn [negb orb] in C11. rewrite C11. reflexivity. }
+  rewrite C3.
+  cbn [ctx_ok negb].
+  assert (C5 : cn_ok (o_conns (obs_of x)) (o_cn (obs_of x)) = true)
+    by (cbn [obs_of o_conns o_cn]; apply clause5_holds).
+  rewrite C5. cbn [negb].
+  rewrite (clause6_holds _ (reachable_InvA _ _ R')). cbn [negb must_wait_ok].
+  unfold keeps_waiting_ok, limited_err_ok. rewrite DA. cbn [negb orb].
+  rewrite (clause10_holds _ (reachable_InvA _ _ R')). cbn [negb].
+  rewrite (clause11_holds da _ R' Q' P'). reflexivity.
+Qed.
+
+Lemma mon_check_wstep : forall da s w, reachable da s -> quiescent s -> pending s = [] ->
+  mon_check (obs_of s) (wstep_op w) (obs_of (apply_wstep s w)) = 0.
+Proof.
+  intros da s [o|d a f n proxy] R Q P; [exact (mon_check_model da s o R Q P)|].
+  exact (mon_check_added_abs da (obs_of s) _ proxy
+           (reachable_apply_wstep da s (WRace d a f n proxy) R)
+           (apply_wstep_quiescent s (WRace d a f n proxy))
+           (apply_wstep_pending s (WRace d a f n proxy) P)
+           (direct_added_race s d a f n proxy P)).
+Qed.
+
+Lemma monitor_run_wmodel : forall da ws s i, reachable da s -> quiescent s -> pending s = [] ->
+  monitor_run (obs_of s) i (model_wtrace s ws) = [].
+Proof.
+  intros da ws. induction ws as [|w r IH]; intros s i R Q P; [reflexivity|].
+  cbn [model_wtrace monitor_run]. rewrite (mon_check_wstep da s w R Q P).
+  apply IH; [apply reachable_apply_wstep; exact R|apply apply_wstep_quiescent|apply apply_wstep_pending; exact P].
+Qed.
+
+Lemma swarm_wtrace_holds_l : forall da ws,
+  monitor_run obs_init 0 (model_wtrace (init_state da) ws) = [].
+Proof.
+  intros da ws. change obs_init with (obs_of (init_state da)).
+  apply (monitor_run_wmodel da); [exists []; reflexivity| |reflexivity].
+  intros tid. unfold thread_step. cbn. destruct tid; reflexivity.
+Qed.
+
+(* the race step is, for the model, the call followed by the connection: no lost wake-up
+   whatever the moment the connection is added at *)
+Lemma race_no_waiter_l : forall da s d a f n proxy, reachable da s -> pending s = [] ->
+  let x := apply_wstep s (WRace d a f n proxy) in
+  usable (get_conn (conns x) (length (conns s))) = true -> waiters x = [].
+Proof.
+  intros da s d a f n proxy R P x U.
+  pose proof (reachable_apply_wstep da s (WRace d a f n proxy) R) as R'.
+  pose proof (apply_wstep_pending s (WRace d a f n proxy) P) as P'. fold x in R', P'.
+  assert (C : conns x = conns s ++ [new_conn false proxy]) by (apply race_conns; exact P).
+  apply (no_lost_wakeup_l da x (length (conns s)) R'); [rewrite C, app_length; cbn; lia|exact U| |exact P'].
+  rewrite C. unfold get_conn. rewrite app_nth2 by lia. rewrite Nat.sub_diag. reflexivity.
+Qed.
+
+(* the reason string handed to WithForceDirectDial is informational: a request made with the
+   empty reason (wire value 2) is the same step as one made with a reason (wire value 1) *)
+Lemma reason_ignored_l : forall d a n p r c,
+  decode_wstep (4 :: d :: a :: 2 :: n :: r)%Z = decode_wstep (4 :: d :: a :: 1 :: n :: r)%Z /\
+  decode_wstep (12 :: a :: 2 :: n :: r)%Z = decode_wstep (12 :: a :: 1 :: n :: r)%Z /\
+  decode_wstep (15 :: d :: a :: 2 :: n :: p :: r)%Z = decode_wstep (15 :: d :: a :: 1 :: n :: p :: r)%Z /\
+  co_force (call_of_z [c; 0; 4]%Z) = true.
+Proof. intros. repeat split; reflexivity. Qed.
+
 Lemma swarm_trace_holds_l : forall da ops,
   monitor_run obs_init 0 (model_trace (init_state da) ops) = [].
 Proof.
